@@ -214,21 +214,21 @@ fn suffixes() -> Vec<Vec<Op>> {
 // execution
 
 #[derive(Clone, Debug)]
-enum Step {
+pub enum Step {
     Byte(u8, usize),
     Write(Vec<OutCall>, usize),
     SetPrompt(usize, usize),
 }
 
 impl Step {
-    fn op_index(&self) -> usize {
+    pub fn op_index(&self) -> usize {
         match self {
             Step::Byte(_, i) | Step::Write(_, i) | Step::SetPrompt(_, i) => *i,
         }
     }
 }
 
-fn steps_of(cfg: &Config, ops: &[Op]) -> Vec<Step> {
+pub fn steps_of(cfg: &Config, ops: &[Op]) -> Vec<Step> {
     let mut out = Vec::new();
     let mut last: Option<u8> = None;
     for (i, op) in ops.iter().enumerate() {
@@ -490,7 +490,7 @@ fn fault_run<S: CmdSet>(cfg: &Config, ops: &[Op], steps: &[Step], clean: &Clean,
                 }
                 st.borrow_mut().repair();
                 // the rest of the key whose first byte failed (the LF of a CR LF Enter): later input is decoded normally,
-                // so the second half of the pair is still swallowed - no dispatch, no change, no output
+                // so the second half of the pair is still swallowed - no dispatch, no change of the line, no new line on the terminal
                 let op_i = step.op_index();
                 for rest in steps[si + 1..].iter().take_while(|r| r.op_index() == op_i && matches!(ops.get(op_i), Some(Op::Enter))) {
                     if let Step::Byte(b, _) = rest {
@@ -499,7 +499,9 @@ fn fault_run<S: CmdSet>(cfg: &Config, ops: &[Op], steps: &[Step], clean: &Clean,
                         if let Err(e) = s.byte(*b) {
                             return Err((format!("{}: the remaining byte {:#04x} of the same key is accepted by the repaired sink", what, b), format!("{:?}", e)));
                         }
-                        if s.calls() != calls0 || s.editor() != before || s.out_len() != out0 {
+                        // (what the terminal is sent after a failed call is left open - a library may repaint its prompt on the
+                        // next byte - but a line feed would mean that the byte was taken for an Enter of its own)
+                        if s.calls() != calls0 || s.editor() != before || s.out_from(out0).contains(&b'\n') {
                             return Err((
                                 format!("{}: the remaining byte {:#04x} of the same key (second half of the line terminator) does nothing: later input is decoded normally", what, b),
                                 format!("{} new invocation(s), line {:?} -> {:?}, {} bytes written", s.calls() - calls0, lossy(&before.bytes), lossy(&s.editor().bytes), s.out_len() - out0),
